@@ -84,6 +84,14 @@ def measure(ctx, ty, dtype, per_cell):
     pad = (-n) % cols
     x = L.mkalg(ty, rows + [rows[0]] * pad, dtype)
     X = x.lview(-1, cols).Exp().lview(-1)
+    # "any batch shape": the same rows folded into batches with an extent of 3 (the size of a coordinate axis); every
+    # other row is taken from that evaluation
+    pad3 = (-n) % 6
+    x3 = L.mkalg(ty, rows + [rows[0]] * pad3, dtype)
+    X3 = x3.lview(-1, 2, 3).Exp().lview(-1)
+    Xt = X.tensor().clone()
+    Xt[1:n:2] = X3.tensor()[1:n:2]
+    X = pp.LieTensor(Xt, ltype=X.ltype)
     xs = x.tensor()
     off = {"SO3": 0, "SE3": 3, "RxSO3": 0, "Sim3": 3}[ty]
     ev = []
